@@ -115,6 +115,24 @@ let note_desc (d : desc) =
     Hashtbl.replace hist_seen k ();
     history := { d with d_leader = (nn 0, nn 0); d_bk = None } :: !history end
 let note_ans a = (match a with PdOne (Some d) -> note_desc d | PdOne None -> () | PdMany l -> List.iter note_desc l); a
+(* from the first quiescent point of a sequence on, PD must report the ground truth (hypothesis of C09_converges):
+   the answer to "region of k" is the current region that contains k, with its leader *)
+let quiescent = ref false
+let cur_truth : desc list ref = ref []
+let pd_truth_checked = ref 0
+let pd_truth_bad : string list ref = ref []
+let same_desc (a : desc) (b : desc) =
+  a.d_id = b.d_id && a.d_start = b.d_start && a.d_end = b.d_end && a.d_ver = b.d_ver && a.d_conf = b.d_conf && a.d_peers = b.d_peers
+let check_pd_truth q a =
+  if !quiescent then
+    (match q with
+     | ReqGet k ->
+         incr pd_truth_checked;
+         let want = List.filter (fun t -> contains t.d_start t.d_end k) !cur_truth in
+         (match a, want with
+          | PdOne (Some d), [t] when same_desc d t && d.d_leader = t.d_leader -> ()
+          | _ -> pd_truth_bad := ("PD answer for key " ^ hex_of_bytes k ^ " is not the current region with its leader") :: !pd_truth_bad)
+     | _ -> ())
 let sender_prims : (string, int) Hashtbl.t = Hashtbl.create 16
 let rec explain (c : cache) (res : string) (target : cache) : (cache * string list) option =
   (* a send failure on an earlier attempt (store fail-epoch bump) may precede the final epoch-not-match answer: try that order first *)
@@ -133,6 +151,9 @@ and explain1 (c : cache) (res : string) (target : cache) : (cache * string list)
     | "ok" :: "regionerr" :: "epochnotmatch" :: ctx :: cur :: _ when ctx <> "-" ->
         (match split_on '@' ctx with
          | [v; st] -> List.iter note_desc (parse_descs cur);
+                      if !quiescent then List.iter (fun d -> incr pd_truth_checked;
+                          if not (List.exists (same_desc d) !cur_truth) then
+                            pd_truth_bad := ("a store's EpochNotMatch lists region " ^ show_verid ((d.d_id, d.d_ver), d.d_conf) ^ " which is not a current region") :: !pd_truth_bad) (parse_descs cur);
                       (match on_epoch_not_match c (parse_verid v) (nn (int_of_string st)) (parse_descs cur) with
                        | Ok (_, c') -> note "on_epoch_not_match"; c' | Err _ -> c)
          | _ -> c)
@@ -170,7 +191,7 @@ and explain1 (c : cache) (res : string) (target : cache) : (cache * string list)
 let txn_mode = ref false
 let run_op (c : cache) (op : string) (args : string list) (qs : string list array) =
   let pd0 = (if !txn_mode then codec_pd (make_pd qs) else make_pd qs) in
-  let pd = fun t q -> note_ans (pd0 t q) and budget = nat (Array.length qs) and t0 = O in
+  let pd = fun t q -> let a = note_ans (pd0 t q) in check_pd_truth q a; a and budget = nat (Array.length qs) and t0 = O in
   let a i = List.nth args i in
   let fin ((r, c1), t1) show = (show r, c1, int_of_nat t1) in
   match op with
@@ -300,6 +321,11 @@ let () =
   let hist_checked = ref 0 and hist_failed = ref 0 and hist_states = ref 0 in
   let clause_names = ["sorted"; "hist"; "addr"; "uniq"; "dom_start"; "dom_lat"; "dom_id"; "ok"; "len"; "tomb"] in
   let check_inv () =
+    (match !pd_truth_bad with
+     | [] -> ()
+     | m :: _ ->
+         let (idx, op, args) = (match !last_op with Some x -> x | None -> ("-", "-", [])) in
+         report "PD-NOT-TRUTH" idx op args [m]; pd_truth_bad := []);
     if !truth <> [] && !inv_on then begin
       incr inv_checked;
       if not (cinvb !truth !cache) then begin
@@ -311,8 +337,8 @@ let () =
     end in
   read_lines (fun line ->
     match split_tab line with
-    | "SEQ" :: cls :: seed :: rest -> txn_mode := (rest = ["txn"]); incr seqs; seqid := cls ^ "\t" ^ seed; seq_bad := false; cache := empty_cache; cur_op := None; last_ctx := None; truth := []; last_op := None; inv_on := (cls <> "unit"); history := []; Hashtbl.reset hist_seen
-    | "T" :: ds :: _ -> truth := (try parse_descs ds with _ -> []); List.iter note_desc !truth
+    | "SEQ" :: cls :: seed :: rest -> txn_mode := (rest = ["txn"]); incr seqs; seqid := cls ^ "\t" ^ seed; seq_bad := false; cache := empty_cache; cur_op := None; last_ctx := None; truth := []; last_op := None; inv_on := (cls <> "unit"); history := []; Hashtbl.reset hist_seen; quiescent := false; cur_truth := []
+    | "T" :: ds :: _ -> truth := (try parse_descs ds with _ -> []); List.iter note_desc !truth; cur_truth := !truth
     | "X" :: ev :: _ when String.length ev > 6 && String.sub ev 0 6 = "reply " ->
         (* the store's answer as the model's store_reply (Converge.v) predicts it from the ground truth *)
         (match !last_ctx with
@@ -398,7 +424,7 @@ let () =
         check_inv ()
     | "X" :: ev :: _ when String.length ev >= 10 && String.sub ev 0 10 = "conv begin" ->
         (* a quiescent point: the ground truth must pass the executable form of truth_wf (hypothesis of C09_converges_checked) *)
-        incr wf_checked;
+        incr wf_checked; quiescent := !inv_on;
         if not (truth_wfb !truth) then begin incr wf_failed; report "TRUTH-NOT-WF" "-" "conv begin" [] [] end;
         (* ... and everything PD / the stores reported so far must obey the epoch discipline relative to it (hist_ok) *)
         if !inv_on then begin
@@ -412,6 +438,6 @@ let () =
           end
         end
     | _ -> ());
-  Printf.printf "STATS\tcases=%d\tmismatches=%d\tseqs=%d\tbadseqs=%d\treplies=%d\tinv_checked=%d\tinv_failed=%d\twf_checked=%d\twf_failed=%d\thist_checked=%d\thist_failed=%d\thist_states=%d\n" !cases !mism !seqs !badseq !replies !inv_checked !inv_failed !wf_checked !wf_failed !hist_checked !hist_failed !hist_states;
+  Printf.printf "STATS\tcases=%d\tmismatches=%d\tseqs=%d\tbadseqs=%d\treplies=%d\tinv_checked=%d\tinv_failed=%d\twf_checked=%d\twf_failed=%d\thist_checked=%d\thist_failed=%d\thist_states=%d\tpd_truth_checked=%d\n" !cases !mism !seqs !badseq !replies !inv_checked !inv_failed !wf_checked !wf_failed !hist_checked !hist_failed !hist_states !pd_truth_checked;
   Hashtbl.iter (fun k v -> Printf.printf "COUNT\t%s\t%d\n" k v) counts;
   Hashtbl.iter (fun k v -> Printf.printf "SENDERPRIM\t%s\t%d\n" k v) sender_prims
